@@ -350,6 +350,37 @@ brk('c18_list_drops_failures', 'C18', JSF, '''                vec.iter()
                     .collect::<Result<Vec<_>, _>>()?,''', '''                vec.iter().filter_map(|v| v.json().ok()).collect::<Vec<_>>(),''')
 brk('c18_duration_overflow_panics', 'C18', JSF, '''                v.num_nanoseconds()
                     .ok_or(ConvertToJsonError::DurationOverflow(v))?,''', '''                v.num_nanoseconds().expect("duration fits"),''')
+# ---- C01
+brk('c01_walk_error_tree_again', 'C01', PAR, '''            Ok(_) if !parse_errors.borrow().is_empty() => Ok(IdedExpr::default()),
+''', '')
+brk('c01_visitor_errors_dropped', 'C01', PAR, '''        let mut errors = parse_errors.take();
+        errors.extend(self.errors);''', '''        let mut errors = parse_errors.take();
+        drop(self.errors);''')
+brk('c01_lexer_listener_missing', 'C01', PAR, '''        lexer.remove_error_listeners();
+        lexer.add_error_listener(Box::new(ParserErrorListener {
+            parse_errors: parse_errors.clone(),
+        }));''', '''        lexer.remove_error_listeners();''')
+brk('c01_placeholder_without_error', 'C01', PAR, '''            Err(e) => {
+                self.report_error::<ParseError, _>(
+                    token,
+                    None,
+                    format!("invalid bytes literal: {e:?}"),
+                );
+                IdedExpr::default()
+            }''', '''            Err(_) => IdedExpr::default(),''')
+brk('c01_syntax_error_filtered', 'C01', PAR, '''            Some(offending_symbol)
+                if offending_symbol.get_token_type() == gen::cellexer::WHITESPACE => {}''', '''            Some(offending_symbol)
+                if offending_symbol.get_token_type() == gen::cellexer::WHITESPACE
+                    || msg.starts_with("extraneous") => {}''')
+brk('c01_new_expect_in_visitor', 'C01', PAR, '''    fn visit_Nested(&mut self, ctx: &NestedContext<'_>) -> Self::Return {
+        match &ctx.e {
+            None => {''', '''    fn visit_Nested(&mut self, ctx: &NestedContext<'_>) -> Self::Return {
+        let _open = ctx.start().get_text().chars().next().unwrap();
+        match &ctx.e {
+            None => {''')
+brk('c01_ok_despite_errors', 'C01', PAR, '''        if errors.is_empty() {
+            r.map_err(|e| ParseErrors { errors: vec![e] })''', '''        if errors.len() < 2 {
+            r.map_err(|e| ParseErrors { errors: vec![e] })''')
 # ---- C02
 brk('c02_new_unwrap_in_builtin', 'C02', FUN, '''pub fn bytes(value: Arc<String>) -> Result<Value> {
     Ok(Value::Bytes(value.as_bytes().to_vec().into()))''', '''pub fn bytes(value: Arc<String>) -> Result<Value> {
